@@ -314,12 +314,17 @@ func runRace(c *Race) (*verdict, bool) {
 			return failf(b, "takeover/connack-before-setup", "%s: CONNACK (#%d) was sent before its Setup returned (#%d)", l.a.name, l.connackSeq, l.setupRet), true
 		}
 		if prev != nil {
-			// the previous holder must be fully terminated before this one was set up
+			// the previous holder's termination must have begun before this one's
+			// Setup returned. (The recorder logs a return after the backend call
+			// has really returned, so the logged Terminate-return of a holder
+			// that was already gone can trail the newcomer's Setup-return; the
+			// logged entry cannot: entry-log <= real entry <= real return <=
+			// newcomer's real return <= newcomer's return-log.)
 			switch {
-			case prev.termRet == 0:
+			case prev.termEntry == 0:
 				return failf(b, "takeover/old-not-terminated", "%s was set up (#%d) but the previous holder %s was never terminated", l.a.name, l.setupRet, prev.a.name), true
-			case prev.termRet > l.setupRet:
-				return failf(b, "takeover/two-active", "%s was set up (#%d, CONNACK #%d) before the previous holder %s was terminated (#%d): two connections held the id at once", l.a.name, l.setupRet, l.connackSeq, prev.a.name, prev.termRet), true
+			case prev.termEntry > l.setupRet:
+				return failf(b, "takeover/two-active", "%s was set up (#%d, CONNACK #%d) before the termination of the previous holder %s had begun (#%d): two connections held the id at once", l.a.name, l.setupRet, l.connackSeq, prev.a.name, prev.termEntry), true
 			}
 			if prev.a.will != "" {
 				disc := false
